@@ -141,6 +141,14 @@ var templates = []template{
 	{name: "host-as-map-callback", loop: true, render: func(es []string) string {
 		return fmt.Sprintf("(dotimes (i %d) %s (map 'list snap1 '(0)))", len(es), first(es))
 	}},
+	// the host builtin is itself the HANDLER of a handler-bind binding: called by the operator with no eval in between,
+	// so a panic in it unwinds through handler-bind's own bookkeeping (the pending condition)
+	{name: "host-as-handler", loop: true, render: func(es []string) string {
+		return fmt.Sprintf("(dotimes (i %d) %s (handler-bind ([condition snaph]) (error 'trigger \"x\")))", len(es), first(es))
+	}},
+	{name: "host-as-handler-of-second-binding", loop: true, render: func(es []string) string {
+		return fmt.Sprintf("(dotimes (i %d) %s (handler-bind ([nomatch (lambda (c &rest d) 0)] [trigger snaph]) (error 'trigger \"x\")))", len(es), first(es))
+	}},
 	{name: "after-nested-empty-loads", render: func(es []string) string {
 		return "(load-string \"\") (funcall (lambda () (load-bytes (to-bytes \"; nothing\")) 1)) " + body(es)
 	}},
@@ -229,10 +237,13 @@ func newRig() *rig {
 	snap1 := el.Fn("snap1", []string{"x"}, func(env *lisp.LEnv, args *lisp.LVal) *lisp.LVal {
 		return snap.Eval(env, lisp.SExpr(nil))
 	})
+	snaph := el.Fn("snaph", []string{"c", "&rest", "d"}, func(env *lisp.LEnv, args *lisp.LVal) *lisp.LVal {
+		return snap.Eval(env, lisp.SExpr(nil))
+	})
 	nx := el.Fn("nx", nil, func(env *lisp.LEnv, args *lisp.LVal) *lisp.LVal {
 		return lisp.Int(g.snapCalls + 1)
 	})
-	g.env = el.MustEnv(el.Opts{Builtins: []lisp.LBuiltinDef{snap, snap1, nx}})
+	g.env = el.MustEnv(el.Opts{Builtins: []lisp.LBuiltinDef{snap, snap1, snaph, nx}})
 	// the same host code registered as a SPECIAL OPERATOR and as a Go MACRO (embedders may add both): a panic in
 	// the operator's own Go body unwinds through specialOpCall / macroCall, not through a function call
 	g.env.AddSpecialOps(true, el.Fn("snap-op", nil, func(env *lisp.LEnv, args *lisp.LVal) *lisp.LVal { return snap.Eval(env, lisp.SExpr(nil)) }))
@@ -241,7 +252,7 @@ func newRig() *rig {
 	if o := g.env.Load(prelude); o.IsErr {
 		panic("harness: prelude: " + o.Full())
 	}
-	if o := g.env.Load("(in-package 'p) (set 'snap user:snap) (set 'snap1 user:snap1) (set 'nx user:nx) (in-package 'user)"); o.IsErr {
+	if o := g.env.Load("(in-package 'p) (set 'snap user:snap) (set 'snap1 user:snap1) (set 'snaph user:snaph) (set 'nx user:nx) (in-package 'user)"); o.IsErr {
 		panic("harness: prelude2: " + o.Full())
 	}
 	return g
